@@ -816,6 +816,10 @@ class Dyn(Calls):
             if not self.bound_ids:
                 self.touch(TObj(), o.t)
             return VBool(z3.Function("has_attr", ObjSort, ObjSort, z3.BoolSort())(o.t, self.box(nm)))
+        if isinstance(o, VModule):
+            # an imported module is one opaque object per module name; whether it has an attribute of a given (symbolic) name is a function of both
+            m = z3.Const("module$" + o.name, ObjSort)
+            return VBool(z3.Function("has_attr", ObjSort, ObjSort, z3.BoolSort())(m, self.box(nm)))
         raise Unsupported("hasattr on %r" % (o,))
 
     def pure_map(self, n, var, c):
@@ -1251,7 +1255,8 @@ class Dyn(Calls):
                 # a quantified postcondition (or one that names the callee's locals) cannot be instantiated per element here; it is
                 # simply not used (assuming less is sound)
         if self._pure_raises is not None:
-            self._pure_raises.update(list(c.raises) + list(c.when_raises))
+            # an exception whose raise clause is the literal `False` is promised never to be raised: it is not an outcome of the comprehension either
+            self._pure_raises.update([e_ for e_ in c.raises if not any(str(cl_).strip() == "False" for cl_ in c.raises[e_])] + list(c.when_raises))
         return res
 
     def with_pure_raises(self, build):
